@@ -235,9 +235,9 @@ def h_qmdp(sk, seed):
 # ---------------------------------------------------------------------------------------------------
 # run-time tier: sandwich against an independent depth-limited expectimax with sound leaf bounds
 # ---------------------------------------------------------------------------------------------------
-def rt_sandwich(seed, n):
+def rt_sandwich(seed, n, constant=False):
     import random, warnings
-    rnd = random.Random(seed)
+    rnd = random.Random(seed if not constant else 'const/%s' % seed)
     out = []
     fam = P.family('thorough', seed)
     for k in range(n):
@@ -250,6 +250,10 @@ def rt_sandwich(seed, n):
             if cost_only:
                 for key in list(v.R):
                     v.R[key] = -abs(v.R[key]) - 0.5 if not isinstance(v.R[key], float) or True else v.R[key]
+            if constant:          # F21: every state-action reward equal (a pure step cost / bonus / nothing): the default horizon formula divided by 0
+                c = (-1.0, 0.0, 2.0, -0.25)[k % 4]
+                for key in list(v.R):
+                    v.R[key] = c
             rp['pomdp'], rp['v'] = pomdp, v
         S.run_concrete(harness, (), {}, rng=rnd)
         pomdp, v = rp['pomdp'], rp['v']
@@ -291,7 +295,10 @@ def rt_sandwich(seed, n):
             w = np.array([rnd.random() for _ in range(tf.shape[0])])
             beliefs.append(w / w.sum())
         # slack implied by the threshold and the horizon actually used (k backups from 0: gamma^k * max(0,-Rmin)/(1-gamma)) plus threshold/(1-gamma)
-        hor = int(np.ceil(np.log(eps / max(rmax - rmin, 1e-12)) / np.log(g))) if rmax > rmin else 1
+        full = pomdp.state_action_reward_matrix          # the planner derives its horizon from the unmasked matrix
+        fmax, fmin = float(full.max()), float(full.min())
+        rr = (fmax - fmin) or abs(fmax)
+        hor = int(np.ceil(np.log(eps / rr) / np.log(g))) if rr > 0 else 1
         slack = eps / (1 - g) + (g ** max(hor, 0)) * max(0.0, -rmin) / (1 - g) + 1e-9
         sl = list(pomdp.state_list)
         w = dict(skel=sk.name, gamma=g, eps=eps, cost_only=cost_only, R=repr({k_: float(x) for k_, x in v.R.items()}))
@@ -382,6 +389,7 @@ def tasks(tier, seed):
             T.append(Task('alpha-policy/%s/nd%d' % (sk.name, nd), h_alpha_policy, (sk, nd, seed), tier='B', max_paths=4000))
         T.append(Task('qmdp/%s' % sk.name, h_qmdp, (sk, seed), tier='B'))
     T.append(Task('U/qmdp/action_value/abstract-belief', h_qmdp_action_value_U, (), tier='U', note='unbounded belief support, uninterpreted action-value table'))
+    T.append(Task('rt/sandwich-constant-rewards', rt_sandwich, (seed, 4 if tier == 'quick' else 16, True), tier='R', kind='rt', deadline_s=600))
     T.append(Task('rt/sandwich', rt_sandwich, (seed, 9 if tier == 'quick' else 60), tier='R', kind='rt', deadline_s=900))
     return T
 
